@@ -10,7 +10,7 @@ Results are written to <seed>/result.json. Usage: seedcheck.py [--no-check] [--p
 """
 import json, os, subprocess, sys, shutil, time, re
 
-VERIF = "/verif"
+VERIF = os.path.dirname(os.path.dirname(os.path.abspath(__file__)))
 REPO = "/repo"
 GO124 = "/root/go/pkg/mod/golang.org/toolchain@v0.0.1-go1.24.3.linux-amd64/bin"
 ENV = dict(os.environ, GOFLAGS="-mod=mod", GOPROXY="off", PATH=GO124 + ":" + os.environ["PATH"], GOTOOLCHAIN="local")
